@@ -140,12 +140,12 @@ int main(int argc, char** argv) {
     }
     if (a.mode == "selftest") { puts("selftest ok"); return 0; }
     if (a.mode == "gen") {
-        Plan p = a.focus == "C19diff" ? generate_diff(a.seed) : a.focus == "C08x" ? generate_exhaust(a.seed) : a.focus == "C20x" ? generate_rc(a.seed) : generate(a.seed, a.focus);
+        Plan p = a.focus == "C19diff" ? generate_diff(a.seed) : a.focus == "C08x" ? generate_exhaust(a.seed) : a.focus == "C20x" ? generate_rc(a.seed) : a.focus == "C11x" ? generate_c11x(a.seed) : generate(a.seed, a.focus);
         puts(plan_to_json(p).c_str());
         return 0;
     }
     if (a.mode == "run") {
-        Plan p = a.focus == "C19diff" ? generate_diff(a.seed) : a.focus == "C08x" ? generate_exhaust(a.seed) : a.focus == "C20x" ? generate_rc(a.seed) : generate(a.seed, a.focus);
+        Plan p = a.focus == "C19diff" ? generate_diff(a.seed) : a.focus == "C08x" ? generate_exhaust(a.seed) : a.focus == "C20x" ? generate_rc(a.seed) : a.focus == "C11x" ? generate_c11x(a.seed) : generate(a.seed, a.focus);
         return run_one(p, a, a.verbose);
     }
     if (a.mode == "replay") {
@@ -183,7 +183,7 @@ int main(int argc, char** argv) {
                 if (!vs.empty()) rc = 1;
                 continue;
             }
-            Plan p = a.focus == "C08x" ? generate_exhaust(seed) : a.focus == "C20x" ? generate_rc(seed) : generate(seed, a.focus);
+            Plan p = a.focus == "C08x" ? generate_exhaust(seed) : a.focus == "C20x" ? generate_rc(seed) : a.focus == "C11x" ? generate_c11x(seed) : generate(seed, a.focus);
             auto t0 = sim::real_ns();
             Sim s(p, false);
             s.execute();
@@ -201,7 +201,7 @@ int main(int argc, char** argv) {
         if (!a.file.empty()) {
             std::ifstream f(a.file); std::stringstream ss; ss << f.rdbuf(); std::string err;
             if (!plan_from_replay(ss.str(), p, &err)) { fprintf(stderr, "cannot parse: %s\n", err.c_str()); return 2; }
-        } else p = a.focus == "C19diff" ? generate_diff(a.seed) : a.focus == "C08x" ? generate_exhaust(a.seed) : a.focus == "C20x" ? generate_rc(a.seed) : generate(a.seed, a.focus);
+        } else p = a.focus == "C19diff" ? generate_diff(a.seed) : a.focus == "C08x" ? generate_exhaust(a.seed) : a.focus == "C20x" ? generate_rc(a.seed) : a.focus == "C11x" ? generate_c11x(a.seed) : generate(a.seed, a.focus);
         return shrink_main(p, a.sig, a.out, a.budget);
     }
     fprintf(stderr, "usage: simc run|worker|replay|shrink|gen|selftest ...\n");
